@@ -235,5 +235,8 @@ Definition stmt_prefixes (d : db) (st : stmt) : list db :=
                              | Ok rows => [set_rows n rows d] | _ => [] end)
                    (seq 0 (S (length (tb_rows t))))
       end
+  | SCreateTable n cols =>
+      (* a table registered with the first i columns *)
+      d :: flat_map (fun i => ok_dbs (spec_exec d (SCreateTable n (firstn i cols)))) (seq 0 (S (length cols)))
   | _ => [d] ++ ok_dbs (spec_exec d st)
   end.
